@@ -48,7 +48,7 @@ def show_beh(steps):
 
 
 def tlc_export(ctx, cfg, tag, label, simulate=None, depth=None, workers=None):
-    r = ctx.tlc("OxiaDbMC", cfg, label=label, simulate=simulate, depth=depth, workers=workers)
+    r = ctx.tlc("OxiaDbMC", cfg, label=label, simulate=simulate, depth=depth, workers=workers, heap="4g")
     path = os.path.join(ctx.scratch, "%s.ndjson" % label)
     n = export(r, tag, path)
     if n == 0:
@@ -80,7 +80,7 @@ def report(ctx, res, origin, what="real state machine deviates from OxiaDb.tla")
 def validate(ctx, path, cfg, label):
     """Run DbTrace on a concatenated trace file; returns (accepted, highwater, total, result)."""
     r = ctx.tlc("DbTrace", cfg, files=[(path, "trace.ndjson")], workers=1, deque=True, label=label,
-                seed=False, allow_violation=True)
+                seed=False, allow_violation=True, heap="2g")
     total = sum(1 for _ in open(path))
     if r.ok:
         return True, total, total, r
@@ -132,6 +132,7 @@ def sample_from(path, kind, ctx, nlines=1):
 
 def replay_file(ctx, path, default_cfg):
     """bin/check <ID> --replay: re-execute a saved behaviour on the real code and let TLC judge the recording."""
+    path = os.path.abspath(path)
     binp = ctx.go_build("dbcheck")
     mm = json.load(open(path))
     tp = os.path.join(ctx.scratch, "rerun.ndjson")
